@@ -485,7 +485,6 @@ class C12(Check):
         super().__init__(tier, seed)
         self._impl_cache = {}
         self._na_seen = set()
-        self._conflicts = {}
         self._block_of = {}
         self.hist = {"commands": 0, "cmd_spec_na": 0, "cmd_err": 0, "cmd_multi_pass": 0, "cmd_alias": 0, "cmd_loop_or_dangling": 0,
                      "cmd_mode_contrib": 0, "cases_user_invalid": 0, "blocks": {}}
@@ -698,11 +697,11 @@ class C12(Check):
 
     def model_view(self, case, ans):
         ia = self._cached_impl(case)
-        return self._with_e2e(case, [[st, self._canon(res, i[1])] for (st, res, _, _, _, _, _), i in zip(ans, ia)])
+        return self._with_e2e(case, [[st, self._canon(res, i[1])] for (st, res, _, _, _, _), i in zip(ans, ia)])
 
     def legacy_view(self, case, ans):
         ia = self._cached_impl(case)
-        return [[st, self._canon(res, i[1])] for (_, _, _, _, st, res, _), i in zip(ans, ia)]
+        return [[st, self._canon(res, i[1])] for (_, _, _, _, st, res), i in zip(ans, ia)]
 
     def spec(self, case, ans):
         if ans is None or isinstance(ans, str):
@@ -710,8 +709,7 @@ class C12(Check):
         ia = self._cached_impl(case)
         out = []
         na = 0
-        self._conflicts[self.key(case)] = [bool(a[6]) for a in ans]
-        for (_, _, st, res, _, _, _), i in zip(ans, ia):
+        for (_, _, st, res, _, _), i in zip(ans, ia):
             c = self._canon(res, i[1])
             # a command line outside S's scanner is not judged: S adopts the observed result there
             if c is None:
@@ -771,22 +769,7 @@ class C12(Check):
         return nt
 
     def classify(self, case, ia, sa):
-        """redefined-flag-crashes: EVERY differing command (a) belongs to a compiler whose rule list registers some
-        flag twice (reported by the driver), (b) raised ArgumentError in the implementation, (c) has the same alias
-        status in I and S.  Anything else (including a differing end-to-end element) is not in the class."""
-        conf = self._conflicts.get(self.key(case))
-        if conf is None or sa is None:
-            return None
-        diff = False
-        for k, (a, b) in enumerate(zip(ia, sa)):
-            if a == b:
-                continue
-            if a[0] == "e2e" or k >= len(conf):
-                return None
-            diff = True
-            if not (conf[k] and a[0] == b[0] and a[1] == ["Err", "ArgumentError"] and b[1][0] == "Ok"):
-                return None
-        return "redefined-flag-crashes" if diff and len(ia) == len(sa) else None
+        return None          # no known-finding class (redefined-flag-crashes was repaired)
 
     def shrink(self, case, still_fails):
         user, cmds = case["user"], case["cmds"]
